@@ -32,6 +32,10 @@ EXPLANATION = (
     "Guards are read off the function's control-flow graph first; where that reading fails the same question is asked path by "
     "path on a symbolic walk (locals expanded to the expressions they were bound to, tests over constants folded, loops over literal tuples "
     "unrolled, generator helpers stepped with the consuming loop, private helpers entered with parameters bound to the arguments). "
+    "on_link_e2e writes the relay entry of the rendezvous circuit registered under the cell's cookie: that registration is dropped while "
+    "on_link_e2e runs (by itself or by the synchronous part of the remove_exit_socket it calls), so a cookie links once. "
+    "Values picked from a table of rows written in place (next() over (test, action) rows, {state: bound method}.get(state)) are followed row "
+    "by row; functools.partial objects and generator objects bound to a local are the call / the generator body they stand for. "
     "Interleavings of concurrent circuits are not explored."
 )
 
@@ -2442,10 +2446,34 @@ def _fold_isinstance(obj, classes):
     return any(repo.classes[have][0].is_subclass_of(n) for n in names)
 
 
-def _fold(atom):
+def _callable_object(a, env) -> bool:
+    """
+    a (expanded) denotes a callable object that exists whenever the expression is evaluated: `functools.partial(f, ...)` (a fresh partial
+    object: not None, truthy - it defines neither __bool__ nor __len__ nor __eq__) or `self.m` with m a plain method of the class of the
+    frame's function that nothing in the repository assigns as an attribute (a bound method: not None, truthy).
+    """
+    a = strip_cast(a)
+    env = env if env is not None else {}
+    if isinstance(a, ast.Call):
+        return _lib_name(a.func, env, "functools") == "partial" and bool(a.args) and not isinstance(a.args[0], ast.Starred)
+    fi, repo = env.get(_FI), _CUR["repo"]
+    if isinstance(a, ast.Attribute) and isinstance(a.value, ast.Name) and a.value.id == "self" and "self" not in env and fi is not None \
+            and fi.cls is not None and repo is not None:
+        m = fi.cls.lookup(a.attr)
+        if isinstance(m, FuncInfo) and not (set(m.decorator_names()) & {"property", "cached_property", "staticmethod", "classmethod"}) \
+                and not any(d for d in m.decorator_names() if d.endswith(("property", ".setter", ".getter"))) \
+                and fi.cls.lookup_attr(a.attr) is None \
+                and not any(isinstance(x.ctx, (ast.Store, ast.Del)) for _m, _f, x in repo.attribute_uses(a.attr)):
+            return True
+    return False
+
+
+def _fold(atom, env=None):
     """truth value of an atom that is decided by constants alone, else None"""
     if isinstance(atom, ast.Constant):
         return bool(atom.value)
+    if env is not None and isinstance(atom, (ast.Call, ast.Attribute)) and _callable_object(atom, env):
+        return True
     if isinstance(atom, (ast.Tuple, ast.List, ast.Set)) and not any(isinstance(x, ast.Starred) for x in atom.elts):
         return bool(atom.elts)
     if isinstance(atom, ast.Dict):
@@ -2485,6 +2513,10 @@ def _fold(atom):
                     if None not in res:
                         return isinstance(op, ast.NotIn)
             return None
+        for a, b in ((l, r), (r, l)):
+            if env is not None and isinstance(b, ast.Constant) and b.value is None and isinstance(op, (ast.Is, ast.IsNot, ast.Eq, ast.NotEq)) \
+                    and _callable_object(a, env):
+                return isinstance(op, (ast.IsNot, ast.NotEq))
         for a, b in ((l, r), (r, l)):
             if isinstance(b, ast.Constant) and b.value is None and isinstance(op, (ast.Is, ast.IsNot, ast.Eq, ast.NotEq)) \
                     and isinstance(a, ast.Call) and _record_of(a) is not None and (isinstance(op, (ast.Is, ast.IsNot)) or _record_of(a)[3] is None
@@ -3103,7 +3135,8 @@ class _Sym:
                 out.append((s.pop(), v if v is not None else ast.Constant(value=None)))
         return out
 
-    def bind_params(self, t: FuncInfo, call: ast.Call, st: _State) -> dict | None:
+    def bind_params(self, t: FuncInfo, call: ast.Call, st: _State, expanded: bool = False) -> dict | None:
+        """expanded: the operands of `call` are already written over the caller's inputs (a call put together from a partial object)"""
         a = t.node.args
         allpos = [x.arg for x in [*a.posonlyargs, *a.args]]
         pos = allpos
@@ -3123,7 +3156,7 @@ class _Sym:
             # a local function reads the enclosing function's locals as they are when it is called
             own = _assigned_names(t.node.body) | set(names)
             env.update({k: v for k, v in st.env.items() if k not in own})
-        args = [_sx(x, st.env) for x in call.args]
+        args = [x if expanded else _sx(x, st.env) for x in call.args]
         if len(args) > len(pos):
             return None
         given = {}
@@ -3132,7 +3165,7 @@ class _Sym:
         for k in call.keywords:
             if k.arg not in names or k.arg in given:
                 return None
-            given[k.arg] = _sx(k.value, st.env)
+            given[k.arg] = k.value if expanded else _sx(k.value, st.env)
         defaults = dict(zip(allpos[len(allpos) - len(a.defaults):], a.defaults)) if a.defaults else {}
         defaults.update({x.arg: d for x, d in zip(a.kwonlyargs, a.kw_defaults) if d is not None})
         for n in names:
@@ -3145,9 +3178,9 @@ class _Sym:
                 return None
         return env
 
-    def invoke(self, t: FuncInfo, call: ast.Call, st: _State) -> list | None:
+    def invoke(self, t: FuncInfo, call: ast.Call, st: _State, expanded: bool = False) -> list | None:
         """[(state back in the caller, returned expression)] or None when the call cannot be stepped into"""
-        env = self.bind_params(t, call, st)
+        env = self.bind_params(t, call, st, expanded)
         if env is None:
             return None
         self.ctx.functions.add(t.where)
@@ -3182,6 +3215,17 @@ class _Sym:
             return out
         if isinstance(e, ast.Call) and self.wrapped_call(e, st) is not None:
             return self.invoke_wrapped(e, st)
+        if isinstance(e, ast.Call):
+            sel = self.selection(e, st)
+            if sel is not None:
+                return sel
+            pc = self.prebound_call(e, st)
+            if pc is not None:
+                t = self.target_of(pc, st, awaited)
+                if t is not None and not self.is_generator(t):
+                    r = self.invoke(t, pc, st, expanded=True)
+                    if r is not None:
+                        return r
         if isinstance(e, ast.Call):
             e = self.direct_call(e, st)
             t = self.target_of(e, st, awaited)
@@ -3224,6 +3268,93 @@ class _Sym:
             return [(s, _lit_index(ast.copy_location(ast.Subscript(value=v, slice=_sx(e.slice, s.env), ctx=ast.Load()), e)))
                     for s, v in self.value(e.value, st)]
         return [(st, _sx(e, st.env))]
+
+    def prebound_call(self, e: ast.Call, st: _State):
+        """
+        `step(...)` / `partial(self._m, a)(b)` where the callee is a functools.partial object built around a method of the walked object: the
+        call `self._m(a, b)` it makes (operands already expanded - they were bound when the partial object was created), else None.
+        """
+        f = strip_cast(e.func)
+        if not ((isinstance(f, ast.Name) and f.id in st.env) or isinstance(f, ast.Call)):
+            return None
+        bound = _settle(_sx(f, st.env), st.recent)
+        if not (isinstance(bound, ast.Call) and _lib_name(bound.func, st.env, "functools") == "partial"):
+            return None
+        x = _sx(e, st.env)
+        if isinstance(x, ast.Call) and isinstance(x.func, ast.Attribute) and isinstance(x.func.value, ast.Name) and x.func.value.id == "self" \
+                and "self" not in st.env and not any(isinstance(a, ast.Starred) for a in x.args) and not any(k.arg is None for k in x.keywords):
+            return x
+        return None
+
+    def selection(self, e: ast.Call, st: _State):
+        """
+        Values picked from a table written out in place, one path per row:
+        `next((v for p, v in ((p1, v1), (p2, v2)) if <test over p>), default)` - the rows are tried in order, the first whose test holds
+        supplies the value (the tests of the rows before it failed), `default` when none does;
+        `{k1: f1, k2: f2}.get(key[, default])` with callable values (bound methods / partial objects / lambdas) - `key == k1`, else
+        `key == k2`, else the default.  None for anything else (the caller goes on with the expression as it stands).
+        """
+        x = _sx(e, st.env)
+        if not isinstance(x, ast.Call) or x.keywords:
+            return None
+        m = _exists_match(x, st.env) if isinstance(x.func, ast.Name) and x.func.id == "next" and "next" not in st.env else None
+        if m is not None and len(m[1]) <= 8 and not isinstance(strip_cast(x.args[0]), ast.Call):
+            a = strip_cast(x.args[0])
+            g = a.generators[0]
+            it = _literal_elements(g.iter, "any", st.env)
+            out, pending = [], [st]
+            for row in it:
+                b = _bind_pattern(g.target, row)
+                if b is None:
+                    return None
+                test = [_sx(c, b) for c in g.ifs]
+                test = test[0] if len(test) == 1 else ast.BoolOp(op=ast.And(), values=test)
+                nxt = []
+                for s in pending:
+                    for s2, o in self.branch(test, s, True):
+                        if o:
+                            out.append((s2, _sx(a.elt, b)))
+                        else:
+                            nxt.append(s2)
+                pending = nxt
+            return out + [(s, x.args[1]) for s in pending]
+        f = x.func
+        if isinstance(f, ast.Attribute) and f.attr == "get" and isinstance(f.value, ast.Dict) and 1 <= len(x.args) <= 2 and f.value.keys \
+                and len(f.value.keys) <= 8 and all(k is not None and (const_value(k) is not NOCONST or _enum_member(k) is not None
+                                                                      or isinstance(k, (ast.Name, ast.Attribute))) for k in f.value.keys) \
+                and not any(isinstance(a, ast.Starred) for a in x.args) \
+                and all(_callable_object(v, st.env) or isinstance(v, ast.Lambda) for v in f.value.values):
+            # (a later duplicate of a key would replace the earlier row: only tables whose keys are known to be pairwise different values)
+            fi0 = st.env.get(_FI)
+            kv = []
+            for k in f.value.keys:
+                m_ = _enum_member(k)
+                cv = const_value(k)
+                if cv is NOCONST and m_ is None and fi0 is not None:
+                    cv = _const_in(self.repo, fi0.module, fi0.cls, k)
+                if m_ is None and (cv is NOCONST or isinstance(cv, float)):
+                    return None
+                kv.append(("enum", m_) if m_ is not None else ("const", cv))
+            for i, a_ in enumerate(kv):
+                for b_ in kv[:i]:
+                    if a_[0] != b_[0]:
+                        return None
+                    if a_[0] == "enum" and _enum_equal(a_[1], b_[1]) is not False:
+                        return None
+                    if a_[0] == "const" and a_[1] == b_[1]:
+                        return None
+            out, pending = [], [st]
+            for k, v in zip(f.value.keys, f.value.values):
+                nxt = []
+                for s in pending:
+                    for s2, o in self.branch(ast.Compare(left=x.args[0], ops=[ast.Eq()], comparators=[k]), s, True):
+                        if o:
+                            out.append((s2, v))
+                        else:
+                            nxt.append(s2)
+                pending = nxt
+            return out + [(s, x.args[1] if len(x.args) == 2 else ast.Constant(value=None)) for s in pending]
+        return None
 
     def direct_call(self, e: ast.Call, st: _State) -> ast.Call:
         """`table[kind](...)` / `step(...)` with the callee picked from a literal table or bound to a local: the call of what it denotes"""
@@ -3302,7 +3433,7 @@ class _Sym:
                     (isinstance(v, ast.Call) and isinstance(v.func, ast.Name) and v.func.id == "bool" and len(v.args) == 1):
                 out.extend(self.branch(v, s, True))
                 continue
-            c = _fold(v)
+            c = _fold(v, s.env)
             if c is None:
                 c = s.recent.get(norm(v))       # the same expression was decided earlier on this path and nothing happened since
             if c is not None:
@@ -3586,6 +3717,17 @@ class _Sym:
                 r = self.for_generator(s, t, it, st)
                 if r is not None:
                     return r
+        if isinstance(it, ast.Name) and it.id in st.env and not isinstance(s, ast.AsyncFor):
+            # `layers = self._gen(x)` ... `for row in layers:` - the generator object was created earlier (its operands evaluated there: they are
+            # kept expanded), its body runs now, step by step with this loop.  A generator can be consumed once: the local is unknown afterwards.
+            gc = _settle(strip_cast(st.env[it.id]), st.recent)
+            if isinstance(gc, ast.Call) and isinstance(gc.func, ast.Attribute) and isinstance(gc.func.value, ast.Name) and gc.func.value.id == "self" \
+                    and "self" not in st.env:
+                t = self.target_of(gc, st, False)
+                if t is not None and self.is_generator(t):
+                    r = self.for_generator(s, t, gc, self.havoc(st, [it.id]), expanded=True)
+                    if r is not None:
+                        return r
         out = []
         for s0, itv in self.value(s.iter, st):
             seq = strip_cast(itv)
@@ -3617,11 +3759,11 @@ class _Sym:
                 out.extend(self.loop(s, s0, s.target))
         return out
 
-    def for_generator(self, s, t: FuncInfo, call: ast.Call, st: _State) -> list | None:
+    def for_generator(self, s, t: FuncInfo, call: ast.Call, st: _State, expanded: bool = False) -> list | None:
         """`for x in self._gen(...)`: the generator body is walked and every `yield v` runs the loop body with x = v"""
         if any(isinstance(n, (ast.Yield, ast.YieldFrom)) and not isinstance(parent_of(n), ast.Expr) for n in walk_no_nested(t.node)):
             return None
-        env = self.bind_params(t, call, st)
+        env = self.bind_params(t, call, st, expanded)
         if env is None:
             return None
         self.ctx.functions.add(t.where)
@@ -4250,6 +4392,87 @@ def _generated_id(ctx: Ctx, k: ast.AST) -> bool:
     return True
 
 
+RP_TABLE = "self.rendezvous_point_for"
+
+
+def _sync_part(repo, f: FuncInfo, depth: int = 3, seen=None) -> list:
+    """
+    [(function, node)] for the syntax that RUNS while a (plain, not awaited) call of f runs: f's own statements, the bodies of the local
+    functions / private steps / overridden-or-super methods it calls by a call expression - not what it merely hands on as a callback
+    (add_done_callback / call_later / register_task operands, lambdas, local functions that are only named), and nothing of an `async def`
+    (calling it only creates the coroutine).
+    """
+    seen = seen if seen is not None else set()
+    if id(f.node) in seen or f.is_async or any(isinstance(n, (ast.Yield, ast.YieldFrom)) for n in walk_no_nested(f.node) if n is not f.node):
+        return []
+    seen.add(id(f.node))
+    out = []
+    for n in walk_no_nested(f.node):
+        if n is f.node:
+            continue
+        out.append((f, n))
+        if isinstance(n, ast.Call) and depth > 0:
+            for g in repo.resolve_call(f, n):
+                if isinstance(g, FuncInfo) and g.module.relpath.startswith(PKG) and g.node is not f.node:
+                    out.extend(_sync_part(repo, g, depth - 1, seen))
+    return out
+
+
+def _drops_from(f: FuncInfo, n, table: str) -> bool:
+    """node n (in f) takes entries out of `table`: T.pop / popitem / clear, `del T[k]`, or T rebuilt by an assignment"""
+    def is_t(e) -> bool:
+        return chain(resolve(f, strip_cast(e))) == table
+    if isinstance(n, ast.Call) and isinstance(n.func, ast.Attribute) and n.func.attr in ("pop", "popitem", "clear"):
+        return is_t(n.func.value)
+    if isinstance(n, ast.Delete):
+        return any(isinstance(t, ast.Subscript) and is_t(t.value) for t in n.targets)
+    if isinstance(n, (ast.Assign, ast.AnnAssign)) and getattr(n, "value", None) is not None:
+        tg = n.targets if isinstance(n, ast.Assign) else [n.target]
+        return any(isinstance(t, ast.Attribute) and chain(t) == table for t in tg)
+    return False
+
+
+def rule_rendezvous_single_use(ctx: Ctx) -> None:
+    """
+    on_link_e2e splices the circuit a LINK-E2E cell arrived on into the rendezvous circuit registered under the cell's cookie: it stores
+    relay_from_to[<rendezvous circuit id>] (the existing circuit's id - not an id the cell names, so `id not in T` does not apply).  That store
+    replaces nothing only because a cookie links ONCE: the registration rendezvous_point_for[cookie] is gone when on_link_e2e returns - it drops
+    it itself, or the remove_exit_socket it calls for the rendezvous circuit drops it while that call runs.  The exit sockets linger for
+    remove_tunnel_delay (the removal proper is an async step), so a cleanup that only runs when the delayed removal is done leaves a window in
+    which the same cookie, sent over ANY other circuit, passes every guard and re-points the relay entry of the linked circuit (seeded C05-m17).
+    """
+    repo = ctx.repo
+    hc = repo.try_cls("HiddenTunnelCommunity", HS)
+    ctx.anchor(hc, "HiddenTunnelCommunity")
+    link = hc.lookup("on_link_e2e")
+    ctx.anchor(link, "HiddenTunnelCommunity.on_link_e2e")
+    part = _sync_part(repo, link)
+    reads = [n for f, n in part if isinstance(n, (ast.Subscript, ast.Call)) and (
+        (isinstance(n, ast.Subscript) and isinstance(n.ctx, ast.Load) and chain(resolve(f, strip_cast(n.value))) == RP_TABLE)
+        or (isinstance(n, ast.Call) and isinstance(n.func, ast.Attribute) and n.func.attr in ("get", "pop")
+            and chain(resolve(f, strip_cast(n.func.value))) == RP_TABLE))]
+    ctx.anchor(reads or None, "lookup of rendezvous_point_for[cookie] in on_link_e2e")
+    stores = [n for f, n in part if isinstance(n, ast.Subscript) and isinstance(n.ctx, ast.Store) and _table_of(chain(n)) == "relay_from_to"] + \
+        [n for f, n in part if isinstance(n, ast.Call) and isinstance(n.func, ast.Attribute) and n.func.attr in ("update", "setdefault", "__setitem__")
+         and chain(n.func.value) == "self.relay_from_to"]
+    ctx.anchor(stores or None, "store into relay_from_to reached from on_link_e2e")
+    own = [n for f, n in part if _drops_from(f, n, RP_TABLE)]
+    via = []
+    if not own:
+        for f, n in part:
+            if isinstance(n, ast.Call) and call_name(n) == "remove_exit_socket":
+                for g in repo.resolve_call(f, n):
+                    if isinstance(g, FuncInfo) and g.module.relpath.startswith(PKG):
+                        via.extend((g, m) for g2, m in _sync_part(repo, g) if _drops_from(g2, m, RP_TABLE))
+    where = "on_link_e2e itself" if own else (f"{via[0][0].qualname}, while the call made by on_link_e2e runs" if via else "")
+    ctx.check(bool(own or via), "rendezvous-single-use", link, reads[0],
+              f"the registration rendezvous_point_for[cookie] is dropped synchronously ({where}): a cookie links one circuit, once",
+              "on_link_e2e stores relay_from_to[<id of the rendezvous circuit registered under the cookie>], but nothing that runs while on_link_e2e "
+              "runs (its own body, the synchronous part of the remove_exit_socket it calls) takes the cookie out of rendezvous_point_for; the replaced "
+              "exit sockets linger for remove_tunnel_delay, so a second LINK-E2E with the same cookie over any other circuit passes every guard and "
+              "overwrites the relay entry of the already linked circuit: a cell on an unrelated circuit re-routes an existing one")
+
+
 def rule_entry_conversion(ctx: Ctx) -> None:
     """
     A store into a routing table under an id that did not come off the wire (those are no-overwrite-live-id's) puts a NEW entry there only
@@ -4340,12 +4563,50 @@ def rule_unkeyed_teardown(ctx: Ctx) -> None:
     handlers = [m for m in (tc.lookup(n) for n in PLAINTEXT_HANDLERS) if m is not None]
     ctx.anchor(len(handlers) == len(PLAINTEXT_HANDLERS) or None, "TunnelCommunity.on_created / on_extended")
 
+    def denoted(f: FuncInfo, c) -> list:
+        """
+        what the callee expression of call c may denote: every definition of a local it is read from (`verify = self.crypto.verify_...`,
+        also bound together with others in one tuple assignment), every row of a literal table it is picked from
+        (`{STATE: self._step_a, ...}.get(state)`), the function a functools.partial object was built around
+        """
+        out = []
+        todo = [x for a in _alternatives(f, c.func) for x in _callee_alternatives(a)]
+        while todo and len(out) < 32:
+            x = strip_cast(todo.pop())
+            if isinstance(x, ast.Call) and _last(chain(x.func)) == "partial" and x.args and not isinstance(x.args[0], ast.Starred):
+                todo.extend(y for a in _alternatives(f, x.args[0]) for y in _callee_alternatives(a))
+            elif isinstance(x, ast.Constant) and x.value is None:
+                continue                    # (calling None raises: no path goes on from there)
+            else:
+                out.append(x)
+        return out
+
+    def is_verify(f: FuncInfo, c) -> bool:
+        """the call runs the handshake verification, under whatever local name the bound method is held"""
+        if call_name(c) == VERIFY_STEP:
+            return True
+        if not isinstance(strip_cast(c.func), (ast.Name, ast.Call)):
+            return False
+        ds = denoted(f, c)
+        return bool(ds) and all(isinstance(x, ast.Attribute) and x.attr == VERIFY_STEP for x in ds)
+
+    def step_targets(f: FuncInfo, c) -> list:
+        """functions of the repository the call may enter, also through a local / a table row / a partial object holding a bound method"""
+        out = list(repo.resolve_call(f, c))
+        if isinstance(strip_cast(c.func), (ast.Name, ast.Call, ast.Subscript)):
+            for x in denoted(f, c):
+                if isinstance(x, ast.Attribute) and isinstance(x.value, ast.Name) and x.value.id == "self" and f.cls is not None:
+                    for g in repo.dispatch(f.cls, x.attr):
+                        if g not in out:
+                            out.append(g)
+        return out
+
     def verifies(f: FuncInfo, seen: frozenset = frozenset()) -> list:
         """statement nodes of f whose normal completion means the handshake verification completed"""
         cfg = ctx.cfg(f)
         out = []
         for c in calls(f):
-            if call_name(c) == VERIFY_STEP:
+            if is_verify(f, c):
                 out.extend(cfg.nodes_for(c))
                 continue
             if call_name(c) in REMOVERS or f.qualname in seen or len(seen) > 3:
@@ -4353,7 +4614,7 @@ def rule_unkeyed_teardown(ctx: Ctx) -> None:
             for g in repo.resolve_call(f, c):
                 # a private step that cannot return normally without having completed the verification is the verification
                 if isinstance(g, FuncInfo) and g.module.relpath.startswith(PKG) and g.node is not f.node and not g.is_async \
-                        and any(call_name(k) == VERIFY_STEP for k in calls(g)) and len(repo.resolve_call(f, c)) == 1:
+                        and any(is_verify(g, k) for k in calls(g)) and len(repo.resolve_call(f, c)) == 1:
                     gcfg = ctx.cfg(g)
                     inner = verifies(g, seen | {f.qualname})
                     if inner and gcfg.exit not in gcfg.reach(cut_out_normal=inner):
@@ -4502,7 +4763,7 @@ def rule_unkeyed_teardown(ctx: Ctx) -> None:
             t = getattr(h, "_parent", None) if h is not None else None
             short = name.rsplit(".", 1)[-1] if name != "del" else "del"
             if isinstance(t, ast.Try) and any(x in vs for s_ in t.body for x in cfg.nodes_for(s_)) or \
-                    (isinstance(t, ast.Try) and any(call_name(k) == VERIFY_STEP for s_ in t.body for k in calls(s_))):
+                    (isinstance(t, ast.Try) and any(is_verify(f, k) for s_ in t.body for k in calls(s_))):
                 construct = f"{short} in except {norm(h.type) if h.type is not None else ''} of the handshake verification".replace("  ", " ")
             else:
                 construct = head(c)
@@ -4518,7 +4779,7 @@ def rule_unkeyed_teardown(ctx: Ctx) -> None:
                 continue
             if not [x for x in cfg.nodes_for(c) if x in everything]:
                 continue
-            for g in repo.resolve_call(f, c):
+            for g in step_targets(f, c):
                 if not (isinstance(g, FuncInfo) and g.module.relpath.startswith(PKG)) or g.node is f.node:
                     continue
                 if g.cls is not None and not (g.cls is tc or g.cls.is_subclass_of("TunnelCommunity") or tc.is_subclass_of(g.cls.name)):
@@ -4618,11 +4879,24 @@ def run(ctx: Ctx) -> None:
     rule_hop_fixed(ctx)
     rule_entry_conversion(ctx)
     rule_unkeyed_teardown(ctx)
+    rule_rendezvous_single_use(ctx)
     ctx.assume("no shared mutable state between circuits besides the three routing tables and request caches (structural argument; interleavings not explored)")
     ctx.assume("collision of locally generated 32-bit ids with relay/exit ids is a 2^-32 event and not decided")
 
 
 WITNESSES = [
+    {"name": "rendezvous cookie forgotten only when the delayed exit-socket removal is done (seeded C05-m17)", "file": HS, "rule": "rendezvous-single-use",
+     "old": "        for cookie, rendezvous_circuit in list(self.rendezvous_point_for.items()):\n"
+            "            if rendezvous_circuit.circuit_id == circuit_id:\n"
+            "                self.rendezvous_point_for.pop(cookie)\n\n"
+            "        return super().remove_exit_socket(circuit_id, additional_info, remove_now, destroy)\n",
+     "new": "        def forget_rendezvous(_: object) -> None:\n"
+            "            for cookie, rendezvous_circuit in list(self.rendezvous_point_for.items()):\n"
+            "                if rendezvous_circuit.circuit_id == circuit_id:\n"
+            "                    self.rendezvous_point_for.pop(cookie)\n\n"
+            "        removal = super().remove_exit_socket(circuit_id, additional_info, remove_now, destroy)\n"
+            "        removal.add_done_callback(forget_rendezvous)\n"
+            "        return removal\n"},
     {"name": "relay passes a destroy on before the adjacency test (seeded C05-m15)", "file": TC, "rule": "destroy-authorised",
      "old": "        if prev_relay and peer == prev_relay.hop.peer:\n",
      "new": "        if next_relay and payload.reason:\n            self.destroy_relay(circuit_id, reason=payload.reason)\n"
